@@ -338,8 +338,7 @@ class Gridder(GeospatialGrid):
 
         total_segment_length = first_segment_length + second_segment_length
         if total_segment_length == 0:
-            # repeated point on the antimeridian: the whole value stays in the
-            # first part
+            # repeated point on the antimeridian: the whole value stays in the first part
             first_segment_length, total_segment_length = 1.0, 1.0
         return first_segment_length, second_segment_length, total_segment_length
 
@@ -750,7 +749,8 @@ class Gridder(GeospatialGrid):
             _lat_index_ranges = lat_index_ranges[_mask]
             _start_lat_index = _lat_index_ranges[:, 0]
             _slopes = slopes[_mask]
-            _intercepts = intercepts[_mask]
+            _lats0 = lats[:-1][_mask]
+            _lons0 = lons[:-1][_mask]
 
             _change_range = np.arange(_abs_lat_index_change)
             if _lat_index_change < 0:
@@ -768,9 +768,12 @@ class Gridder(GeospatialGrid):
 
             _lat_lines_intersected = self.grid_latitudes[_lat_indexes_intersected]
 
-            _lons_for_lat_intersections = np.multiply(
-                np.expand_dims(_slopes, axis=1), _lat_lines_intersected
-            ) + np.expand_dims(_intercepts, axis=1)
+            # point-slope form: exact at the end points, no cancellation when the
+            # segment hugs a grid line
+            _lons_for_lat_intersections = np.expand_dims(_lons0, axis=1) + np.multiply(
+                np.expand_dims(_slopes, axis=1),
+                _lat_lines_intersected - np.expand_dims(_lats0, axis=1),
+            )
 
             # now store the lat lines intersected by the segment in the
             # lat_lines_intersected array
@@ -789,7 +792,7 @@ class Gridder(GeospatialGrid):
             _lon_index_ranges = lon_index_ranges[_mask]
             _start_lon_index = _lon_index_ranges[:, 0]
             _slopes = slopes[_mask]
-            _intercepts = intercepts[_mask]
+            _lons0 = lons[:-1][_mask]
             _lats = lats[:-1][_mask]
 
             _change_range = np.arange(_abs_lon_index_change)
@@ -813,9 +816,11 @@ class Gridder(GeospatialGrid):
                 (_lon_indexes_intersected.shape), dtype=float
             )
 
-            _lats_for_lon_intersections[~_inf_mask] = np.divide(
+            _lats_for_lon_intersections[~_inf_mask] = np.expand_dims(
+                _lats[~_inf_mask], axis=1
+            ) + np.divide(
                 _lon_lines_intersected[~_inf_mask]
-                - np.expand_dims(_intercepts[~_inf_mask], axis=1),
+                - np.expand_dims(_lons0[~_inf_mask], axis=1),
                 np.expand_dims(_slopes[~_inf_mask], axis=1),
             )
 
